@@ -18,6 +18,7 @@ def common(tier):
         J('lagsnap3-1chunk:H2R1S1', 'lagging_snap', dict(n=3), dict(H=2, R=1, S=1)),
         J('lagsnap3-chunk64:H2R1', 'lagging_snap', dict(n=3, chunk=64), dict(H=2, R=1)),
         J('deposed3:H2R2E1', 'deposed', dict(n=3), dict(H=2, R=2, E=1)),
+        J('deposed3:H2R2X1', 'deposed', dict(n=3), dict(H=2, R=2, X=1)),
         J('deposedsnap3-1chunk:H2R2E1', 'deposed_snap', dict(n=3), dict(H=2, R=2, E=1)),
         J('deposedsnap3-chunk64:H2R2', 'deposed_snap', dict(n=3, chunk=64), dict(H=2, R=2)),
         J('pending3-b24-4:H1E1', 'pending', dict(n=3, batch_bytes=SMALLB), dict(H=1, E=1), dict(unrep=4)),
@@ -26,6 +27,7 @@ def common(tier):
         J('deposed2x3-b24:H2R2', 'deposed_twice', dict(n=3, batch_bytes=SMALLB), dict(H=2, R=2)),
         J('deposed2x3:H2R2E1', 'deposed_twice', dict(n=3), dict(H=2, R=2, E=1)),
         J('forwarded3:H1E1X1', 'forwarded', dict(n=3), dict(H=1, E=1, X=1)),
+        J('forwardedstale3:S1H1', 'forwarded_stale', dict(n=3), dict(S=1, H=1)),
         J('fig8-3-b8:H1R1E1', 'fig8', dict(n=3, batch_bytes=8), dict(H=1, R=1, E=1)),
         J('fig8-3:H1R1E1', 'fig8', dict(n=3), dict(H=1, R=1, E=1)),
         J('fig8full-3-b8:H1R1', 'fig8_full', dict(n=3, batch_bytes=8), dict(H=1, R=1)),
